@@ -6,7 +6,7 @@ import os
 import typing as T
 
 from .. import mlog
-from .common import cmake_is_debug
+from .common import CMakeException, cmake_is_debug
 
 if T.TYPE_CHECKING:
     from .traceparser import CMakeTraceParser, CMakeTarget
@@ -182,10 +182,17 @@ def parse_generator_expressions(
         'TARGET_LINKER_FILE': target_linker_file,
     }
 
+    depth = 0
+
     # Recursively evaluate generator expressions
     def eval_generator_expressions() -> str:
-        nonlocal i
+        nonlocal i, depth
         i += 2
+
+        # Fail with a proper error instead of exhausting the Python stack
+        depth += 1
+        if depth > 200:
+            raise CMakeException(f'CMake: generator expressions are nested too deeply in "{raw[:60]}..."')
 
         func = ''
         args = ''
@@ -223,6 +230,7 @@ def parse_generator_expressions(
         else:
             mlog.warning(f"Unknown generator expression '$<{func}:{args}>'.", once=True, fatal=False)
 
+        depth -= 1
         return res
 
     while i < len(raw):
